@@ -97,7 +97,7 @@ void with_range(int kind, const std::vector<Val> &vals, F &&f) {
       std::list<E> l;
       {
         MonScope m;
-        for (size_t i = 0; i < vals.size(); ++i) l.emplace_back(vals[i].key, vals[i].pay);
+        for (size_t i = 0; i < vals.size(); ++i) l.emplace_back(Mk<E>::make(vals[i]));
       }
       f(l.begin(), l.end());
       MonScope m;
@@ -108,7 +108,7 @@ void with_range(int kind, const std::vector<Val> &vals, F &&f) {
       std::forward_list<E> l;
       {
         MonScope m;
-        for (size_t i = vals.size(); i-- > 0;) l.emplace_front(vals[i].key, vals[i].pay);
+        for (size_t i = vals.size(); i-- > 0;) l.emplace_front(Mk<E>::make(vals[i]));
       }
       f(l.begin(), l.end());
       MonScope m;
@@ -121,8 +121,8 @@ void with_range(int kind, const std::vector<Val> &vals, F &&f) {
       {
         MonScope m;
         a.reserve(vals.size() + 1);
-        for (size_t i = 0; i < vals.size(); ++i) a.emplace_back(vals[i].key, vals[i].pay);
-        sent = new E(-555, 0);
+        for (size_t i = 0; i < vals.size(); ++i) a.emplace_back(Mk<E>::make(vals[i]));
+        sent = new E(Mk<E>::make(Val(-555, 0)));
       }
       const E *b = a.data();
       if (kind == RK_PTR) {
